@@ -9,7 +9,8 @@ from .. import sysrules
 
 EXPLANATION = (
     "(R1) PMux._get_pri_inp is recognised as the first-match scan FIRST(i -> not off[i] and |v[i]| != 0, -1) over the "
-    "inputs in ascending order (idiom matcher; the condition is compared as a truth table), and only PMux overrides the "
+    "inputs in ascending order (idiom matcher; the condition is compared as a truth table; a scan written as a tree of exits "
+    "is decided by its exit conditions and exit values: giving up before the last input is a violation), and only PMux overrides the "
     "base selection (always input 0); (R2) the declared order is the order used: add_comp stores the parents' node "
     "indices in the order given, _get_parents reads them back position by position, and the unordered "
     "predecessor_indices() is consumed nowhere else; (R3) the mux's current is drawn from the selected input only "
